@@ -235,7 +235,15 @@ def evaluate_roundtrip_long(case):
                 args += a
             cmds = [("M", (2.0, 3.0)), (cmd, tuple(args)), ("z", ())]
             n += 1
-            o, why, d = _rt_one(cmds, SVGPath)
+            # iterating a path yields one command per argument set
+            want = [("M", (2.0, 3.0))] + [(cmd, tuple(args[i : i + na])) for i in range(0, len(args), na)] + [("z", ())]
+            try:
+                path = SVGPath.from_commands(cmds)
+                got = list(path)
+                o, d = "returned", path.d
+                why = None if _same_seq(got, want) else f"d={path.d[:200]!r}... ({sets} argument sets) parsed back as {len(got)} commands: {got[:4]!r}..."
+            except Exception as e:  # noqa
+                o, why, d = "raised:" + type(e).__name__, f"{type(e).__name__}: {str(e)[:300]}", None
             outs["long/" + o] += 1
             nts.add(core.h64(repr((cmd, sets))))
             if why and len(viols) < 10:
